@@ -22,6 +22,9 @@ def reset_violation(r):
                      cred_gid=ANY, auth_uid=ANY, auth_gid=ANY, data_len=0, data=b"").items():
         if r[k] != v:
             bad.append("%s=%r" % (k, r[k] if k != "data" else r[k][:24]))
+    if r.get("trailing"):
+        # "carries only an error code and message": bytes after the last field of the reply are daemon memory, not message
+        bad.append("%d byte(s) after the end of the reply message%s" % (r["trailing"], (" (%s)" % r["tail"].hex()) if r.get("tail") else ""))
     return bad
 
 
